@@ -116,6 +116,9 @@ func Gen(f Focus, thorough bool) *rapid.Generator[Script] {
 		}
 		if s.Kind == KindV2Unite {
 			s.SharedArray = rapid.Bool().Draw(t, "sharedarr")
+			if s.SharedArray {
+				s.SharedLayout = rapid.IntRange(0, 2).Draw(t, "sharedlayout")
+			}
 			s.NilEmpty = rapid.Bool().Draw(t, "nilempty")
 		}
 		s.CloseGap = pick(t, "cg", int64(0), 0, T/2, T, 3*T)
